@@ -66,6 +66,11 @@ try:
             checks[f"{p}/{tier}"] = {"exit": r.returncode, "seconds": round(time.time() - t0), "signatures": sigs[:10], "infra": infra[:2]}
             if r.returncode == 1:
                 break
+            if r.returncode != 0:
+                # infrastructure trouble (build failure, time-out): not a verdict
+                res["checks"] = checks
+                print(json.dumps(res, indent=1))
+                sys.exit(3)
     res["checks"] = checks
 finally:
     sh(f"git -C /repo worktree remove --force {WT}")
